@@ -132,6 +132,19 @@ const SPECS: &[PropSpec] = &[
         expected_probes: &["stale_disconnect_on_reused_slot", "tick_event"],
     },
     PropSpec {
+        id: "C08",
+        engine: "routersim",
+        level: "fault_enumeration",
+        runs_quick: 1200,
+        runs_thorough: 30000,
+        rule: "one evaluation = one seeded history (persistent subscriber with 1-3 non-overlapping filters at QoS 0-2, 1-3 publishers, ack lag, 30-150 scheduler steps) re-executed for EVERY step index x 4 ways of ending the subscriber's connection (DISCONNECT packet, link failure, router-initiated close after a protocol error, takeover), followed by up to 3 reconnect cycles with seeded clean flags; crash_points_enumerated counts the re-executions; distinct = hash over all re-executions; non-trivial = forwards were delivered in some re-execution",
+        state_measure: "per router step: hash over connections of (tracker status, scheduled?, #tracked, #parked, inflight bucket, outgoing-buffer bucket, incoming bucket) + groups + graveyard size + channel bucket",
+        real: ROUTER_REAL,
+        stubbed: ROUTER_STUB,
+        assumptions: ROUTER_ASSUME,
+        expected_probes: &["session_saved_with_unacked_forwards", "forward_judged_at_close"],
+    },
+    PropSpec {
     id: "C13",
     engine: "logsim",
     level: "exploration",
@@ -163,6 +176,7 @@ pub fn runner(id: &'static str, tier: Tier) -> Box<RunFn> {
         "C03" => Box::new(move |ch, rep| engines::routersim::run(engines::routersim::P::C03, tier, ch, rep)),
         "C06" => Box::new(move |ch, rep| engines::routersim::run(engines::routersim::P::C06, tier, ch, rep)),
         "C09" => Box::new(move |ch, rep| engines::routersim::run(engines::routersim::P::C09, tier, ch, rep)),
+        "C08" => Box::new(move |ch, rep| engines::routersim::run(engines::routersim::P::C08, tier, ch, rep)),
         "C14" => Box::new(move |ch, rep| engines::routersim::run(engines::routersim::P::C14, tier, ch, rep)),
         "C15" => Box::new(move |ch, rep| engines::routersim::run(engines::routersim::P::C15, tier, ch, rep)),
         "C16" => Box::new(move |ch, rep| engines::routersim::run(engines::routersim::P::C16, tier, ch, rep)),
